@@ -267,18 +267,26 @@ func runC12(c *Ctx) {
 	R.Extra["config_atoms"] = atoms
 	R.Ob("(*Conn).handleGreet/truth table over all configurations", c.P.Pos(f.Pos()), nDis == 0 && nCfg > 0, fmt.Sprintf("%d disagreements over %d configurations, first: %s", nDis, nCfg, firstDis))
 
-	R.Rule("R-caps-reply", "E3+E4", "the capability list is sent only for EHLO/LHLO; HELO's reply carries the greeting text only", 3)
+	R.Rule("R-caps-reply", "E3+E4", "the capability list is sent only for EHLO/LHLO; HELO's reply carries the greeting text only", 2)
 	for _, site := range s.Find(f, "reply:250") {
 		cc := callCommon(site)
-		kind, _ := enhancedArg(cc.Args[2])
+		kind := "helper"
+		if ea := replyEnhArg(site); ea != nil {
+			kind, _ = enhancedArg(ea)
+		}
+		direct := isStaticCall(site, "(*Conn).writeResponse")
 		if kind == "none" {
 			c.obUnreach("capability reply", site, `param1 == false`)
-			d := describe(cc.Args[3])
-			R.Ob(c.siteKey(site, "capability reply carries the built list"), c.P.InstrPos(site), strings.HasPrefix(d, "builtin:append("), "EHLO reply text is "+d)
+			if direct {
+				d := describe(cc.Args[3])
+				R.Ob(c.siteKey(site, "capability reply carries the built list"), c.P.InstrPos(site), strings.HasPrefix(d, "builtin:append("), "EHLO reply text is "+d)
+			}
 		} else {
 			c.obUnreach("HELO reply", site, `param1 == true`)
-			d := describeVarargs(cc.Args[3])
-			R.Ob(c.siteKey(site, "HELO reply lists no capability"), c.P.InstrPos(site), strings.HasPrefix(d, `fmt.Sprintf("Hello %s"`), "HELO reply text is "+d)
+			if direct {
+				d := describeVarargs(cc.Args[3])
+				R.Ob(c.siteKey(site, "HELO reply lists no capability"), c.P.InstrPos(site), strings.HasPrefix(d, `fmt.Sprintf("Hello %s"`), "HELO reply text is "+d)
+			}
 		}
 	}
 	ruleParamEnable(c)
